@@ -227,6 +227,10 @@ def check_find(pid, tier, seed):
     os.remove(vec)
     q = tier == "quick"
     run_pipeline(res, binary, "zones", gen_lines=gens.gen_find_zones(rng, 200 if q else 4000, findn=(pid == "C17")), nshards=8 if q else 16)
+    if pid in ("C05", "C06"):
+        # the recorded finding K1 reproduced at the specification level: on an accepted rule whose yearly periods overlap, the
+        # window walk of the algorithm layer (Algo.tla, shaped like find_date_time) returns an entry twice
+        res.notes["witnesses"] = [C.expect_violated("MC_Rule", dict(DayIds="{8,729}", TimeIdx="{1,8}", OffIdx="{1}", Years="{3,4}", EmitVec="FALSE", Cycle=5), "W_K1")]
     if pid == "C06":
         # unique / earliest / latest are also offered by the buffer-based list: the same zones searched into a reused buffer
         run_pipeline(res, binary, "zones-buffer", gen_lines=gens.gen_find_zones(rng, 60 if q else 1000, findn=True), nshards=8 if q else 16)
@@ -373,6 +377,9 @@ def check_C04(tier, seed):
     consts = dict(DayIds=tla_set(days), TimeIdx=tla_set(rng.sample(range(1, 11), 3 if q else 4)), OffIdx=tla_set(rng.sample(range(1, 8), 3 if q else 4)),
                   Years=tla_set(years), EmitVec="TRUE", Cycle=rng.choice([4, 5, 5, 6, "<- CycleNeg"]))
     res.add_mc(run_mc("MC_Rule", consts, workers=C.NCPU, vec_out=raw, timeout=6000, xmx="12g"))
+    # the recorded finding K2 reproduced at the specification level: the 12-leaf evaluator of the algorithm layer (Algo.tla)
+    # does not refine the period definition on the coincident-south rule EST5EDT,59/25,J60
+    res.notes["witnesses"] = [C.expect_violated("MC_Rule", dict(DayIds="{425,60}", TimeIdx="{5,7}", OffIdx="{2}", Years="{3,4}", EmitVec="FALSE", Cycle=5), "W_K2")]
     vec = os.path.join(C.OUT, "C04-zonevec.ndjson")
     group_by_zone(raw, vec); os.remove(raw)
     run_pipeline(res, binary, "vec", vec_path=vec, validate=True, nshards=16)
@@ -588,9 +595,9 @@ def check_C15(tier, seed):
         stats = json.loads(r.stdout.strip().splitlines()[-1])
         res.drivers[f"threads-{nt}"] = stats["events"]
         tr = C.run_trace(outp, nshards=8, min_events=200)
-        res.events += tr["events"]; res.trace_states += tr["states"]
-        for (idx, tag, line, zline, ztags) in tr["bad"]:
-            res.violation(tag, C.strip(json.loads(line)), dict(index=idx, zone_tags=ztags, threads=nt, context=C.strip(json.loads(zline)) if zline else None))
+        res.events += tr["events"]; res.trace_states += tr["states"]; res.algo_diff += tr["algo_diff"]
+        for (idx, tag, line, zline, ztags, etags) in tr["bad"]:
+            res.violation(tag, C.strip(json.loads(line)), dict(index=idx, zone_tags=ztags, event_tags=etags, threads=nt, context=C.strip(json.loads(zline)) if zline else None))
         if not res.samples:
             res.samples.append(C.strip(json.loads(open(outp).readline())))
         os.remove(outp)
@@ -712,9 +719,9 @@ def check_C19(tier, seed):
     # every configuration's recording is validated against the same specification (the no-alloc one in full)
     for feat in (("cfg-core",) if q else ("cfg-core", "cfg-alloc", "cfg-std")):
         tr = C.run_trace(outs[feat], nshards=16)
-        res.events += tr["events"]; res.trace_states += tr["states"]
-        for (idx, tag, line, zline, ztags) in tr["bad"]:
-            res.violation(tag, C.strip(json.loads(line)), dict(index=idx, zone_tags=ztags, configuration=feat, context=C.strip(json.loads(zline)) if zline else None))
+        res.events += tr["events"]; res.trace_states += tr["states"]; res.algo_diff += tr["algo_diff"]
+        for (idx, tag, line, zline, ztags, etags) in tr["bad"]:
+            res.violation(tag, C.strip(json.loads(line)), dict(index=idx, zone_tags=ztags, event_tags=etags, configuration=feat, context=C.strip(json.loads(zline)) if zline else None))
     res.samples.append(C.strip(json.loads(ref[0])))
     for o in outs.values():
         os.remove(o)
@@ -762,11 +769,11 @@ def run_careful(res, binary, name, events, profile_tag, validate, timeout=1200):
     res.drivers[f"{name}-{profile_tag}"] = len(done)
     if validate and done:
         tr = C.run_trace(outp, nshards=16, min_events=300)
-        res.events += tr["events"]; res.trace_states += tr["states"]
-        for (idx, tag, line, zline, ztags) in tr["bad"]:
+        res.events += tr["events"]; res.trace_states += tr["states"]; res.algo_diff += tr["algo_diff"]
+        for (idx, tag, line, zline, ztags, etags) in tr["bad"]:
             e = json.loads(line)
             res.violation(tag, C.strip(e) if len(line) < 4000 else dict(op=e["op"], a={"len": len(line)}, r=e["r"] if len(json.dumps(e["r"])) < 2000 else "large"),
-                          dict(index=idx, zone_tags=ztags, profile=profile_tag, context=(C.strip(json.loads(zline)) if zline and len(zline) < 4000 else None)))
+                          dict(index=idx, zone_tags=ztags, event_tags=etags, profile=profile_tag, context=(C.strip(json.loads(zline)) if zline and len(zline) < 4000 else None)))
     else:
         res.events += len(done)
     if not res.samples and done:
@@ -862,7 +869,7 @@ def replay(path):
         print("specification admits:", json.dumps(exp)[:2000])
         still = got[-1].get("m") == 0
     tr = C.run_trace(outp, nshards=1)
-    tags = sorted({t for (_, t, _, _, _) in tr["bad"]})
+    tags = sorted({t for (_, t, *_r) in tr["bad"]})
     print("trace specification tags now:", tags, " tag then:", v["tag"])
     still = still or bool(tags)
     print("REPRODUCED" if still else "NOT REPRODUCED (the current tree agrees with the specification on this event)")
